@@ -125,7 +125,8 @@ func runC20(res *Result, tier string, seed int64, replay string) {
 			os.WriteFile(in, []byte(content), 0o644)
 		}
 		outPath := filepath.Join(wd, "out.html")
-		const sentinel = "PRE-EXISTING CONTENT\n"
+		// longer than any output: a write that does not truncate leaves a tail behind
+		sentinel := strings.Repeat("PRE-EXISTING CONTENT\n", 4000)
 		preexisting := i%2 == 0
 		if preexisting {
 			os.WriteFile(outPath, []byte(sentinel), 0o644)
